@@ -42,7 +42,14 @@ def evaluate(prop, sc, want_trace=False):
         if sc.get('mode') == 'loopless' and not an.injected:
             V += oracles.check_end_to_end(sc, an)
     elif prop == 'C02':
-        V += an.check_async_nodes() + an.check_spurious_exceptions('C02')
+        V += an.check_spurious_exceptions('C02')
+        for v in an.check_async_nodes():
+            # what the batching / rate limiting nodes deliver is part of "each exactly once, in order"
+            if v.oracle == 'C08.conservation':
+                v = Violation('C02', 'C02.batch_content', v.seq, v.detail, **v.info)
+            elif v.oracle == 'C13.order':
+                v = Violation('C02', 'C02.fifo', v.seq, v.detail, **v.info)
+            V.append(v)
         # synchronous meaning of every node inside asynchronous pipelines
         for v in an.check_sync_nodes() + an.check_edges() + an.check_sinks():
             if v.prop == 'C01':
